@@ -174,7 +174,9 @@ def declare(reg, eng):
     reg.contract("ConfigInformation.validate", params=["self"], types={"self": "ConfigInformation"}, effect="cfg.validate", no_replay=True,
                  ensures=["monotone_true('_validated')", ("C15", "self._validated == True"),
                           ("C15", "implies(not old(self._validated), reached_loop('(k, argument)') and reached_loop('pre_task') and reached_loop('init_task'))")],
-                 raises={"ValueError": {"when": []}, "Exception": {"when": []}},
+                 # a configuration whose validation failed is not left marked as validated (it would be skipped - accepted - the next time)
+                 raises={"ValueError": {"when": [], "ensures": [("C15", "not self._validated")]},
+                         "Exception": {"when": [], "ensures": [("C15", "not self._validated")]}},
                  modifies=["*._validated"],
                  loops={"(k, argument)": {"no_break": True, "invariants": ["monotone_true('_validated')", "self._validated == True"], "body_post": [
                             ("C15", "implies(haskey(self.values, k) and not isnone(lookup(self.values, k)), effect_with_arg('validate_value', 0, lookup(self.values, k)))"),
